@@ -365,6 +365,14 @@ pub fn builder_seeds(seed: u64) -> Vec<Seed> {
     push("BpsvDocument", "bpsv-versions", Some(bpsv.as_bytes().to_vec()));
     let bpsv2 = "Name!STRING:0|Path!STRING:0|Hosts!STRING:0\nus|tpr/wow|level3.blizzard.com us.cdn.blizzard.com\n";
     push("BpsvDocument", "bpsv-cdns", Some(bpsv2.as_bytes().to_vec()));
+    // rows whose cells are all empty (accepted by the reader in tables with two or more columns),
+    // first / middle / last, and a table that consists of nothing else
+    let bpsv3 = "Region!STRING:0|BuildConfig!HEX:16|BuildId!DEC:4\n||\nus|be2bb98dc28aee05bbee519393696cdb|1\n||\neu||2\n||\n";
+    push("BpsvDocument", "bpsv-empty-rows", Some(bpsv3.as_bytes().to_vec()));
+    let bpsv4 = "A!STRING:0|B!STRING:0\n|\n|\n";
+    push("BpsvDocument", "bpsv-only-empty-rows", Some(bpsv4.as_bytes().to_vec()));
+    let bpsv5 = "Name!STRING:0|Path!STRING:0\n## seqn = 7\nx|\n|y\n|\n";
+    push("BpsvDocument", "bpsv-partly-empty-rows", Some(bpsv5.as_bytes().to_vec()));
     let product = r#"{"all":{"config":{"data_dir":"Data/","display_locales":["enUS","deDE"],"enable_block_copy_patch":true,"product":"wow","supported_locales":["enUS","deDE","frFR"],"supports_multibox":false,"update_method":"ngdp"}},"platform":{"win":{"config":{"binaries":{"game":{"relative_path":"Wow.exe"}}}}}}"#;
     push("ProductConfig", "product-config", Some(product.as_bytes().to_vec()));
     push("ProductConfig", "product-config-min", Some(br#"{"all":{"config":{}}}"#.to_vec()));
